@@ -382,7 +382,7 @@ async def _(mpc):
 
 
 # ---------------------------------------------------------------------------------------------------- C22
-@case('C22', 'output of a zero-size secure array over a lifted field', 'c66c881', cfg=(3, 1, False), numpy=True, expected=[0])
+@case('C37', 'output of a zero-size secure array over a lifted field', 'c66c881', cfg=(3, 1, False), numpy=True, expected=[0])
 async def _(mpc):
     z = mpc.SecFld(3).array(np.array([], dtype=object))
     return list((await mpc.output(z)).shape)
@@ -718,8 +718,10 @@ def _close(a, b, tol):
 
 def run_case(idx, seed=1):
     prop, name, commit, (m, t, no_prss), needs_np, prog, expected, tol = CASES[idx]
-    if needs_np and np is None:
-        return None, 'skipped (NumPy not available)'
+    if needs_np:
+        from mpyc.numpy import np as mpyc_np      # mpyc may have been imported without NumPy in this process
+        if np is None or mpyc_np is None:
+            return None, 'skipped (NumPy not available to mpyc in this process)'
     try:
         res = SimNet(m, t, no_prss=no_prss, seed=seed, sched=Scheduler(seed, 'random'),
                      max_steps=OPEN_STEPS.get(name, 3_000_000)).run(prog)
